@@ -2,13 +2,13 @@
 \* Judges histories recorded from the real notifications package (driver harness/cmd/notif) against spec/Notif.tla (X04).
 \* trace.ndjson, one JSON object per line:
 \*   {"e":"new"}                                   a new history: empty store
-\*   {"e":"op","op":{op,k,id,sel,exp,flag,ks},    one call and everything observable after it went quiet:
+\*   {"e":"op","op":{op,k,id,sel,exp,flag,ks,n},    one call and everything observable after it went quiet:
 \*    "ret":"ok"|"err", "bad":"" | "panic: ..." | "hang" | ...,
 \*    "pushed":[ids],                             keys the subscriber of "notifications:all/" was sent during the call
 \*    "get":{id:k}, "db":{id:k},                  object returned by notifications.Get(id) / by a database Get of the key (0 = none)
 \*    "ui":{id:{st,sel,id}},                      State, SelectedActionID, EventID in the serialized record the UI reads
 \*    "q":[k..], "qa":[k..],                      objects listed by a query of the key prefix / with `where State is active`
-\*    "objs":[{id,keyid,st,sel,exp,del,calls,rl,el,guid}..]}   every notification object of the history (read under its lock):
+\*    "objs":[{id,keyid,st,sel,exp,del,calls,rl,el,guid,typ,sys,acts}..]}   every notification object of the history (read under its lock):
 \*        keyid = EventID part of its database key ("" = no key), calls = action ids the action function was run with,
 \*        rl / el = what became of the goroutines waiting on Response() / Expired(), guid = number of its GUID (0 = empty)
 \* One TLC state per line and allowed model state.  A history that leaves the assumptions of the model (`Legal`) is not
@@ -38,6 +38,7 @@ ObjMatch(m, o) ==
     /\ o.calls = m.calls
     /\ ListMatch(m.rl, o.rl) /\ ListMatch(m.el, o.el)
     /\ (o.guid # 0) <=> m.saved
+    /\ o.typ = m.typ /\ o.sys = m.sys /\ o.acts = m.acts
 
 VisSet(x) == {x.store[i] : i \in {j \in IDs : Visible(x, j)}}
 Match(x, t, before) ==
@@ -60,7 +61,7 @@ Match(x, t, before) ==
 
 DoOp == /\ l <= Len(Trace) /\ Trace[l].e = "op"
         /\ IF void \/ ~Legal(s, Trace[l].op)
-           THEN void' = TRUE /\ UNCHANGED <<s, g>>
+           THEN void' = TRUE /\ UNCHANGED <<s, g>> /\ (~void => PrintT(<<"@@", ToJson([void |-> l])>>))
            ELSE /\ \E x \in FullStep(s, Trace[l].op, TRUE) : Match(x, Trace[l], s) /\ s' = x.s
                 /\ g' = [k \in 1..Len(Trace[l].objs) |-> Trace[l].objs[k].guid]
                 /\ void' = FALSE
